@@ -1,50 +1,85 @@
 import SuxModel.Space.Lemmas
 /-!
 # C11 — Elias–Fano: integer facts about `l` and the upper-bits vector, word rounding
+
+`l` is computed with `n.max(1)` in place of `n` (/repo 76fce19): an empty sequence is sized like a
+sequence of one element.
 -/
 namespace Sux.Space
 
 theorem efL_of_lt {n u : Nat} (h : u < n) : efL n u = 0 := by
   unfold efL; rw [if_neg]; omega
 
-theorem efL_zero_left (u : Nat) : efL 0 u = 0 := by
-  unfold efL; rw [if_neg]; omega
+/-- `n = 0`: `l = ⌊lg u⌋` (`Nat.log2 0 = 0`) -/
+theorem efL_zero_left (u : Nat) : efL 0 u = Nat.log2 u := by
+  unfold efL
+  have e : max 0 1 = 1 := by decide
+  rw [e, Nat.div_one]
+  split
+  · rfl
+  · rename_i h
+    have : u = 0 := by omega
+    subst this; rfl
+
+theorem efL_of_le' {n u : Nat} (h : max n 1 ≤ u) : efL n u = Nat.log2 (u / max n 1) := by
+  unfold efL; rw [if_pos h]
 
 theorem efL_of_le {n u : Nat} (hn : 0 < n) (h : n ≤ u) : efL n u = Nat.log2 (u / n) := by
-  unfold efL; rw [if_pos ⟨hn, h⟩]
+  have e : max n 1 = n := by omega
+  rw [efL_of_le' (by omega), e]
 
-/-- `l = ⌊log₂ ⌊u/n⌋⌋`: `2^l · n ≤ u < 2^(l+1) · n` -/
-theorem efL_spec {n u : Nat} (hn : 0 < n) (h : n ≤ u) :
-    2 ^ efL n u * n ≤ u ∧ u < 2 ^ (efL n u + 1) * n := by
-  rw [efL_of_le hn h]
-  have hq : u / n ≠ 0 := by
-    have : 1 ≤ u / n := (Nat.le_div_iff_mul_le hn).mpr (by omega)
+/-- every `n` (with `N = max n 1`): `l = ⌊log₂ ⌊u/N⌋⌋`, i.e. `2^l · N ≤ u < 2^(l+1) · N` -/
+theorem efL_spec' {n u : Nat} (h : max n 1 ≤ u) :
+    2 ^ efL n u * max n 1 ≤ u ∧ u < 2 ^ (efL n u + 1) * max n 1 := by
+  rw [efL_of_le' h]
+  generalize hN : max n 1 = N at *
+  have hNpos : 0 < N := by omega
+  have hq : u / N ≠ 0 := by
+    have : 1 ≤ u / N := (Nat.le_div_iff_mul_le hNpos).mpr (by omega)
     omega
   have h1 := Nat.log2_self_le hq
-  have h2 := @Nat.lt_log2_self (u / n)
+  have h2 := @Nat.lt_log2_self (u / N)
   constructor
-  · calc 2 ^ (u / n).log2 * n ≤ (u / n) * n := Nat.mul_le_mul_right _ h1
+  · calc 2 ^ (u / N).log2 * N ≤ (u / N) * N := Nat.mul_le_mul_right _ h1
       _ ≤ u := Nat.div_mul_le_self _ _
-  · have h3 : u < (u / n + 1) * n := by
-      have := Nat.lt_mul_div_succ u hn
+  · have h3 : u < (u / N + 1) * N := by
+      have := Nat.lt_mul_div_succ u hNpos
       rw [Nat.mul_comm]; exact this
-    calc u < (u / n + 1) * n := h3
-      _ ≤ 2 ^ ((u / n).log2 + 1) * n := Nat.mul_le_mul_right _ h2
+    calc u < (u / N + 1) * N := h3
+      _ ≤ 2 ^ ((u / N).log2 + 1) * N := Nat.mul_le_mul_right _ h2
 
-/-- the upper parts are below `2n` (for `u < n` even below `n`) -/
-theorem ef_shift_lt {n u : Nat} (hn : 0 < n) : u >>> efL n u < 2 * n := by
-  rcases Nat.lt_or_ge u n with h | h
-  · rw [efL_of_lt h, Nat.shiftRight_zero]; omega
+/-- `n ≥ 1`: `2^l · n ≤ u < 2^(l+1) · n` -/
+theorem efL_spec {n u : Nat} (hn : 0 < n) (h : n ≤ u) :
+    2 ^ efL n u * n ≤ u ∧ u < 2 ^ (efL n u + 1) * n := by
+  have e : max n 1 = n := by omega
+  have := efL_spec' (n := n) (u := u) (by omega)
+  rw [e] at this; exact this
+
+/-- the upper parts are below `2·max n 1` (for `u < n` even below `n`) -/
+theorem ef_shift_lt' (n u : Nat) : u >>> efL n u < 2 * max n 1 := by
+  rcases Nat.lt_or_ge u (max n 1) with h | h
+  · have : efL n u = 0 := by unfold efL; rw [if_neg]; omega
+    rw [this, Nat.shiftRight_zero]; omega
   · rw [Nat.shiftRight_eq_div_pow]
-    have hs := (efL_spec hn h).2
+    have hs := (efL_spec' h).2
     apply Nat.div_lt_of_lt_mul
     rw [Nat.pow_succ] at hs
-    calc u < 2 ^ efL n u * 2 * n := hs
-      _ = 2 ^ efL n u * (2 * n) := by ac_rfl
+    calc u < 2 ^ efL n u * 2 * max n 1 := hs
+      _ = 2 ^ efL n u * (2 * max n 1) := by ac_rfl
+
+theorem ef_shift_lt {n u : Nat} (hn : 0 < n) : u >>> efL n u < 2 * n := by
+  have := ef_shift_lt' n u
+  have e : max n 1 = n := by omega
+  rw [e] at this; exact this
+
+/-- every `n`: at most `n + 2·max n 1` upper bits -/
+theorem efHighBits_le' (n u : Nat) : efHighBits n u ≤ n + 2 * max n 1 := by
+  unfold efHighBits
+  have := ef_shift_lt' n u
+  omega
 
 theorem efHighBits_le {n u : Nat} (hn : 0 < n) : efHighBits n u ≤ 3 * n := by
-  unfold efHighBits
-  have := @ef_shift_lt n u hn
+  have := efHighBits_le' n u
   omega
 
 /-- word rounding costs less than two words on top of the exact bit counts -/
@@ -56,10 +91,14 @@ theorem efWords_le (n u : Nat) :
   generalize n * efL n u = a at *
   omega
 
-/-- `n = 0`: the structure still has one word of low bits and `u + 1` upper bits -/
-theorem efWords_zero (u : Nat) : efWords 0 u = 1 + bitVecWords (u + 1) := by
-  unfold efWords efLowWords efHighWords efHighBits bfvWords
-  rw [efL_zero_left]
-  simp [divCeil, Nat.shiftRight_zero]
+/-- `n = 0`: one (empty) word of low bits and one word of upper bits, whatever `u` -/
+theorem efWords_zero (u : Nat) : efWords 0 u = 2 := by
+  have hh := efHighBits_le' 0 u
+  have hpos : 1 ≤ efHighBits 0 u := by
+    unfold efHighBits; exact Nat.le_add_left 1 _
+  unfold efWords efLowWords efHighWords bfvWords bitVecWords divCeil
+  generalize efHighBits 0 u = hb at *
+  simp only [Nat.zero_mul]
+  omega
 
 end Sux.Space
